@@ -8,4 +8,6 @@ PROPS = {
     "C11": {"coq": "Properties/C11.v", "gens": ["C11"]},
     "C12": {"coq": "Properties/C12.v", "gens": ["C12"]},
     "C13": {"coq": "Properties/C13.v", "gens": ["C13"]},
+    "C14": {"coq": "Properties/C14.v", "gens": ["C14"], "trusted_base": CRYPTO_TB},
+    "C15": {"coq": "Properties/C15.v", "gens": ["C15"], "trusted_base": CRYPTO_TB},
 }
